@@ -94,6 +94,25 @@ FUNCS = [
     ("C15", "dataiter/list_of_dicts.py", "ListOfDicts.filter_out", [], "ListOfDicts_filter_out"),
     ("C15", "dataiter/list_of_dicts.py", "ListOfDicts.unique", [], "ListOfDicts_unique"),
     ("C15", "dataiter/list_of_dicts.py", "ListOfDicts.sort", [], "ListOfDicts_sort"),
+    ("C15", "dataiter/list_of_dicts.py", "ListOfDicts.modify", [], "ListOfDicts_modify"),
+    ("C15", "dataiter/list_of_dicts.py", "ListOfDicts.modify_if", [], "ListOfDicts_modify_if"),
+    ("C15", "dataiter/list_of_dicts.py", "ListOfDicts.fill_missing_keys", [], "ListOfDicts_fill_missing_keys"),
+    ("C15", "dataiter/list_of_dicts.py", "ListOfDicts.select", [], "ListOfDicts_select"),
+    ("C15", "dataiter/list_of_dicts.py", "ListOfDicts.unselect", [], "ListOfDicts_unselect"),
+    ("C15", "dataiter/list_of_dicts.py", "ListOfDicts.rename", [], "ListOfDicts_rename"),
+    ("C15", "dataiter/list_of_dicts.py", "ListOfDicts.append", [], "ListOfDicts_append"),
+    ("C15", "dataiter/list_of_dicts.py", "ListOfDicts.extend", [], "ListOfDicts_extend"),
+    ("C15", "dataiter/list_of_dicts.py", "ListOfDicts.insert", [], "ListOfDicts_insert"),
+    ("C15", "dataiter/list_of_dicts.py", "ListOfDicts.reverse", [], "ListOfDicts_reverse"),
+    ("C15", "dataiter/list_of_dicts.py", "ListOfDicts.__add__", [], "ListOfDicts_add"),
+    ("C15", "dataiter/list_of_dicts.py", "ListOfDicts.__mul__", [], "ListOfDicts_mul"),
+    ("C15", "dataiter/list_of_dicts.py", "ListOfDicts.__rmul__", [], "ListOfDicts_rmul"),
+    ("C15", "dataiter/list_of_dicts.py", "ListOfDicts.__getitem__", [], "ListOfDicts_getitem"),
+    ("C16", "dataiter/list_of_dicts.py", "ListOfDicts.anti_join", [], "ListOfDicts_anti_join"),
+    ("C16", "dataiter/list_of_dicts.py", "ListOfDicts.inner_join", [], "ListOfDicts_inner_join"),
+    ("C16", "dataiter/list_of_dicts.py", "ListOfDicts.full_join", [], "ListOfDicts_full_join"),
+    ("C16", "dataiter/list_of_dicts.py", "ListOfDicts._split_join_by", [], "ListOfDicts_split_join_by"),
+    ("C16", "dataiter/list_of_dicts.py", "ListOfDicts.aggregate", [], "ListOfDicts_aggregate"),
     ("C16", "dataiter/list_of_dicts.py", "ListOfDicts.left_join", [], "ListOfDicts_left_join"),
     ("C16", "dataiter/list_of_dicts.py", "ListOfDicts.semi_join", [], "ListOfDicts_semi_join"),
 ]
@@ -200,6 +219,9 @@ class Translator:
     def root_is_local(self, e, env):
         while isinstance(e, (ast.Attribute, ast.Subscript, ast.Call)):
             e = e.value if not isinstance(e, ast.Call) else e.func
+        if isinstance(e, (ast.BinOp, ast.BoolOp, ast.UnaryOp, ast.Compare, ast.IfExp, ast.List, ast.Tuple, ast.Dict, ast.Set,
+                          ast.ListComp, ast.DictComp, ast.SetComp, ast.GeneratorExp)):
+            return True       # a compound expression: a value computed here, e.g. `(ab + ba).sort(...)`
         return isinstance(e, ast.Name) and (e.id in env or e.id in self.args or e.id in ("self", "cls"))
 
     def opt_int(self, e, env):
@@ -410,6 +432,8 @@ class Translator:
                            f"{', '.join('(Term.sym ' + lean_str(a) + ')' for a in params)}]), "
                            f"(Term.app \"block\" {self.sym_stmts(s.body, env2)})])")
                 env[s.name] = ("term", f"(Term.sym {lean_str(s.name)})")
+            elif isinstance(s, ast.Delete):
+                out.append(f"(Term.app \"del\" [{', '.join(self.term(t_, env) for t_ in s.targets)}])")
             elif isinstance(s, ast.Continue):
                 out.append("(Term.sym \"continue\")")
             elif isinstance(s, ast.Break):
@@ -560,8 +584,11 @@ class Translator:
         body = self.block(list(self.fn.body), {}, [], 1)
         # Out.fall carries the effects too
         ps = "".join(f" ({n} : {t})" for n, t in self.params)
+        decos = ", ".join(lean_str(ast.unparse(d)) for d in self.fn.decorator_list)
         return (f"/-- {origin} (sha256 of the function source: {digest}) -/\n"
-                f"def {lean_name} (truth : Term → Bool){ps} : Out :=\n{body}\n")
+                f"def {lean_name} (truth : Term → Bool){ps} : Out :=\n{body}\n\n"
+                f"/-- the decorators of {origin}, outermost first -/\n"
+                f"def {lean_name}_decorators : List String := [{decos}]\n")
 
 
 CMP = {ast.Eq: "=", ast.NotEq: "≠", ast.Lt: "<", ast.LtE: "≤", ast.Gt: ">", ast.GtE: "≥"}
@@ -606,6 +633,8 @@ def generate(group, repo=None):
 
 
 GROUPS = sorted({f[0] for f in FUNCS})
+# obligations of one property that also read the translated code of another (regenerated with it on every run)
+DEPENDS = {"C17": ["C15", "C16"]}
 
 if __name__ == "__main__":
     import json
